@@ -282,7 +282,8 @@ def weave_fn(unit, tmpl_rel, blk):
         feed(body[pos:off])
         pos = off
         cut()
-        for (lines, kind) in inserts[off]:
+        # at one position, what follows the previous line comes before what precedes the next line
+        for (lines, kind) in sorted(inserts[off], key=lambda x: 0 if x[1].startswith('after') else 1):
             emit_contract(lines, kind)
     feed(body[pos:])
     cut()
